@@ -106,5 +106,5 @@ add("C07.dominant","VH_c07_dominant",SRV,sc+["server/c07.go"],expect_reach=["end
 add("C07.established","VH_c07_established",SRV,sc+["server/c07.go"],expect_reach=["hold_expired","notification","refused","closed","admin_down","prefix_limit"],bounds="one step of the real fsmHandler.established with its receive and send goroutines (cooperative schedule) on a scripted transport and the virtual clock: every event of {KEEPALIVE, UPDATE, NOTIFICATION (any code 1..6 / subcode), OPEN, header with bad marker / length / type, connection closed by the peer, silence, administrative shutdown, prefix-limit shutdown} followed by silence x graceful restart / N bit negotiated or not; hold time 3 s")
 add("C07.idle","VH_c07_idle",SRV,sc+["server/c07.go"],expect_reach=["active"],bounds="the real fsmHandler.idle for each admin state (up, down, prefix-limit shutdown), idle hold time 1..2 s; paths on which the handler never returns end unobserved")
 add("C07.server_guards","VH_c07_server_guards",SRV,sc+["server/c07.go"],{"params":{"updates":2},"unwind":2200},{"params":{"updates":3},"unwind":2200},expect_reach=["ignored","limit","installed"],bounds="real BgpServer.handleFSMMessage with the peer in each of the 6 states, message older than the session or not, prefix limit 0..2, `updates` UPDATEs for distinct prefixes")
-add("C12.gr_cycle","VH_c12_gr_cycle",SRV,sc+["server/c12.go"],{"params":{},"unwind":2200},{"params":{},"unwind":2200},expect_reach=["dropped","timer_expired","all_eor","waiting"],bounds="real BgpServer.handleFSMMessage / fsm.stateChange over a full cycle: session with 2 families and a symbolic subset of them in the peer's GR capability; 1 route per family + End-of-RIB; graceful or non-graceful loss; then restart-timer expiry, or re-establishment with symbolic partial re-announcement and End-of-RIB per family")
+add("C12.gr_cycle","VH_c12_gr_cycle",SRV,sc+["server/c12.go"],{"params":{},"unwind":4200},{"params":{},"unwind":4200},fixed_clock=True,expect_reach=["dropped","timer_expired","all_eor","waiting"],bounds="real BgpServer.handleFSMMessage / fsm.stateChange over a full cycle: session with 2 families and a symbolic subset of them in the peer's GR capability; 1 route per family + End-of-RIB; graceful or non-graceful loss; then restart-timer expiry, or re-establishment with symbolic partial re-announcement and End-of-RIB per family")
 add("C12.loss_classification","VH_c07_established",SRV,sc+["server/c07.go"],expect_reach=["hold_expired","notification","closed","admin_down"],bounds="classification of the loss reason by the real fsmHandler.established / recvMessageloop: every event x graceful restart / N bit negotiated or not (see C07.established)")
